@@ -14,6 +14,7 @@ package vrt
 import (
 	"fmt"
 	"hash/fnv"
+	"runtime"
 	"runtime/debug"
 	"sort"
 	"strings"
@@ -151,6 +152,10 @@ type rt struct {
 	policy    int
 	resetters []func()
 }
+
+// memLimit ends an execution whose live heap exceeds it (treated like the
+// step limit).
+var memLimit uint64 = 1 << 30
 
 // R is the current execution (nil outside executions).
 var R *rt
@@ -330,6 +335,18 @@ func (r *rt) point(op *Op) {
 		r.aborting = true
 		r.end = "step-limit"
 		panic(abortSentinel)
+	}
+	if r.steps&1023 == 0 {
+		// runaway allocation of the code under test (unbounded recursion,
+		// quadratic buffers): end the execution before the process is killed
+		var ms runtime.MemStats
+		runtime.ReadMemStats(&ms)
+		if ms.HeapAlloc > memLimit {
+			r.aborting = true
+			r.end = "step-limit"
+			r.diverge = fmt.Sprintf("heap grew to %d MiB", ms.HeapAlloc>>20)
+			panic(abortSentinel)
+		}
 	}
 	next := r.pick(t)
 	if next == nil {
